@@ -148,35 +148,107 @@ def rule_einsum_trace(ctx: Ctx) -> None:
     if len(arrow) != 1:
         raise AnalysisError(f"partial_trace: einsum subscript shape not recognised: {short(sub)}")
     left = parts[: arrow[0]]
-    comps = [_join_comp(p) for p in left]
-    if len(comps) != 2 or any(c is None for c in comps):
-        raise AnalysisError(f"partial_trace: input subscript is not two joined comprehensions: {[short(p) for p in left]}")
     keep = func_params(fn)[1]
 
-    def labels_repeat(c: ast.ListComp, other: ast.ListComp) -> bool:
-        """comprehension ``c`` yields, for an axis not kept, the label the other half uses for that axis."""
-        elt = c.elt
-        if isinstance(elt, ast.IfExp):
-            t = elt.test
-            if isinstance(t, ast.Compare) and len(t.ops) == 1 and isinstance(t.ops[0], (ast.In, ast.NotIn)) \
-                    and isinstance(t.comparators[0], ast.Name) and t.comparators[0].id == keep:
-                kept, dropped = (elt.body, elt.orelse) if isinstance(t.ops[0], ast.In) else (elt.orelse, elt.body)
-                other_alpha = _alphabets(other.elt if not isinstance(other.elt, ast.IfExp) else other.elt.body)
-                return _alphabets(dropped) == other_alpha and _alphabets(kept) != other_alpha and bool(_alphabets(kept))
-        return False
+    def as_comp(p: ast.AST) -> Optional[ast.AST]:
+        """''.join(<comprehension or a name bound to one>) -> the comprehension"""
+        if isinstance(p, ast.Call) and call_attr(p) == "join" and len(p.args) == 1:
+            a = p.args[0]
+            if isinstance(a, ast.Name) and a.id in env:
+                a = env[a.id]
+            if isinstance(a, (ast.ListComp, ast.GeneratorExp)) and len(a.generators) == 1 and isinstance(a.generators[0].target, ast.Name):
+                return a
+        return None
 
-    a, b = comps
-    plain = lambda c: not isinstance(c.elt, ast.IfExp) and not c.generators[0].ifs
-    if labels_repeat(b, a) or labels_repeat(a, b):
-        ctx.ok("num.einsum-trace", m, es[0], what="dropped axes share one label in both halves")
-    elif plain(a) and plain(b) and _alphabets(a.elt) != _alphabets(b.elt) and _alphabets(a.elt) and _alphabets(b.elt):
+    comps = [as_comp(p) for p in left]
+    if len(comps) != 2 or any(c is None for c in comps):
+        raise AnalysisError(f"partial_trace: input subscript is not two joined comprehensions: {[short(p) for p in left]}")
+
+    def membership(t: ast.AST, v: str) -> Optional[bool]:
+        """True if `t` means `v in keep`, False if `v not in keep`, None if unrecognised"""
+        if isinstance(t, ast.UnaryOp) and isinstance(t.op, ast.Not):
+            r = membership(t.operand, v)
+            return None if r is None else not r
+        if isinstance(t, ast.Compare) and len(t.ops) == 1 and isinstance(t.ops[0], (ast.In, ast.NotIn)) and norm(t.left) == v \
+                and norm(t.comparators[0]) == keep:
+            return isinstance(t.ops[0], ast.In)
+        if isinstance(t, ast.Subscript) and isinstance(t.value, ast.Name) and norm(t.slice) == v and t.value.id in env:
+            d = env[t.value.id]
+            if isinstance(d, ast.Call) and call_name(d) in ("np.isin", "np.in1d") and len(d.args) >= 2 and norm(d.args[1]) == keep \
+                    and isinstance(d.args[0], ast.Call) and call_name(d.args[0]) in ("np.arange", "range"):
+                return True
+        return None
+
+    def letter(e: ast.AST, v: str, depth: int = 0):
+        """('L', alphabet, index text relative to v) | ('pop', order) | None"""
+        if isinstance(e, ast.Subscript):
+            alpha = _alphabets(e.value)
+            if isinstance(e.value, ast.Attribute) and len(alpha) == 1:
+                return ("L", next(iter(alpha)), norm(e.slice).replace(v, "<i>") if norm(e.slice) == v else norm(e.slice))
+            if isinstance(e.value, ast.Name) and e.value.id in env and depth < 3:
+                d = env[e.value.id]
+                if isinstance(d, (ast.ListComp, ast.GeneratorExp)) and len(d.generators) == 1 and not d.generators[0].ifs \
+                        and isinstance(d.generators[0].iter, ast.Call) and call_name(d.generators[0].iter) == "range":
+                    inner = letter(d.elt, d.generators[0].target.id, depth + 1)
+                    if inner and inner[0] == "L" and inner[2] == "<i>" and norm(e.slice) == v:
+                        return inner
+            return None
+        if isinstance(e, ast.Call) and call_attr(e) == "pop" and isinstance(e.func.value, ast.Name) and e.func.value.id in env:
+            d = env[e.func.value.id]
+            if isinstance(d, (ast.ListComp, ast.GeneratorExp)) and len(d.generators) == 1:
+                g = d.generators[0]
+                inner = letter(d.elt, g.target.id, depth + 1)
+                drops = len(g.ifs) == 1 and membership(g.ifs[0], g.target.id) is False
+                if inner and inner[0] == "L" and inner[2] == "<i>" and drops:
+                    first = bool(e.args) and norm(e.args[0]) == "0"
+                    return ("pop", inner[1], "same" if first else "reversed")
+            return None
+        return None
+
+    halves = []
+    for c in comps:
+        g = c.generators[0]
+        v = g.target.id
+        if g.ifs or not (isinstance(g.iter, ast.Call) and call_name(g.iter) == "range"):
+            raise AnalysisError("partial_trace: comprehension shape of the einsum subscript not recognised")
+        if isinstance(c.elt, ast.IfExp):
+            pol = membership(c.elt.test, v)
+            if pol is None:
+                raise AnalysisError(f"partial_trace: keep-test `{short(c.elt.test)}` of the einsum subscript not recognised")
+            k, d = (c.elt.body, c.elt.orelse) if pol else (c.elt.orelse, c.elt.body)
+            halves.append((letter(k, v), letter(d, v)))
+        else:
+            l = letter(c.elt, v)
+            halves.append((l, l))
+    if any(x is None for h in halves for x in h):
+        raise AnalysisError("partial_trace: a letter expression of the einsum subscript is not recognised")
+    (rk, rd), (ck, cd) = halves
+    if rk == rd and ck == cd and rk[0] == "L" and ck[0] == "L" and rk[1] != ck[1]:
         ctx.fail("num.einsum-trace", m, es[0],
                  "the einsum input subscript is the concatenation of two unconditional comprehensions over disjoint alphabets "
-                 f"({sorted(_alphabets(a.elt))} / {sorted(_alphabets(b.elt))}), so no label is repeated and einsum can only *sum* the "
+                 f"({[rk[1]]} / {[ck[1]]}), so no label is repeated and einsum can only *sum* the "
                  "dropped axes over all row/column pairs, never trace them (|++> keep one qubit gives the all-ones matrix)",
                  func="partial_trace", construct="partial_trace: einsum input subscript has no repeated label")
+        return
+    problems = []
+    for nm, x in (("row", rd), ("column", cd)):
+        if x[0] == "pop" and x[2] == "reversed":
+            problems.append(f"the {nm} letters of the dropped axes are taken with .pop() from the end of a list built in ascending order, so with k dropped "
+                            f"axes the j-th one's {nm} index is contracted with the (k+1-j)-th one's other index (a transposition of the traced part, "
+                            f"not its trace) as soon as two or more qubits are traced out")
+    norm_l = lambda x: ("L", x[1], "<i>") if x[0] == "pop" else x
+    if not problems:
+        if norm_l(rd) != norm_l(cd) or norm_l(rd)[2] != "<i>":
+            problems.append(f"a dropped axis gets row label {rd} and column label {cd}: the two are not the same letter, so the axis is not traced")
+        if rk[0] != "L" or ck[0] != "L" or rk[1] == ck[1] or rk[2] != "<i>" or ck[2] != "<i>":
+            problems.append(f"a kept axis gets row label {rk} and column label {ck}: they must be distinct letters indexed by the axis")
+        if rk[0] == "L" and ck[0] == "L" and norm_l(rd)[1] not in (rk[1], ck[1]):
+            pass  # a third alphabet for traced axes is fine
+    if problems:
+        ctx.fail("num.einsum-trace", m, es[0], "partial_trace: " + "; ".join(problems), func="partial_trace",
+                 construct="partial_trace: einsum labels of dropped axes do not pair row i with column i")
     else:
-        raise AnalysisError("partial_trace: comprehension shape of the einsum subscript not recognised")
+        ctx.ok("num.einsum-trace", m, es[0], what="every dropped axis i has one label in both halves, every kept axis two")
 
 
 # --------------------------------------------------------------------------- G3 raise Warning on the value path
